@@ -509,13 +509,17 @@ def _seed_child():
     env.bootstrap()
     cat = catalogue()
     out = {}
+
+    def ser(regs):
+        try:
+            return _ser(regs)[0]
+        except Exception as exc:       # a library failure is reported by the parent as a violation
+            return f'EXC {type(exc).__name__}: {exc}'
     for name, idxs in (('all', list(range(len(cat)))), ('img', [0, 1, 3]), ('sky', [4, 5, 7]), ('one', [2])):
-        t, _ = _ser([make_region(cat[i]) for i in idxs])
-        out[name] = t
+        out[name] = ser([make_region(cat[i]) for i in idxs])
     for vi, v in enumerate(VISUALS):
-        t, _ = _ser([make_region({'shape': 'circle', 'frame': 'image', 'pos': 0, 'size': 0, 'visual': v, 'meta': {'text': 'x', 'tag': ['t']}}),
-                     make_region({'shape': 'point', 'frame': 'fk5', 'pos': 0, 'size': 0, 'visual': v, 'meta': {'text': 'x'}})])
-        out[f'vis{vi}'] = t
+        out[f'vis{vi}'] = ser([make_region({'shape': 'circle', 'frame': 'image', 'pos': 0, 'size': 0, 'visual': v, 'meta': {'text': 'x', 'tag': ['t']}}),
+                               make_region({'shape': 'point', 'frame': 'fk5', 'pos': 0, 'size': 0, 'visual': v, 'meta': {'text': 'x'}})])
     print('C09CHILD ' + json.dumps(out, sort_keys=True))
 
 
@@ -534,6 +538,9 @@ def check_seed(res, seed):
 
 def check_seeds(res):
     base = check_seed(res, 0)
+    for k, v in base.items():
+        if v.startswith('EXC '):
+            res.violation(ID, 'serialize_raises', {'op': 'seeds', 'seed': 0, 'which': k}, f'serialising {k!r} raised {v[4:]}')
     for seed in (1, 2, 3):
         got = check_seed(res, seed)
         for k in base:
